@@ -172,6 +172,27 @@ for k, v in TECH_ADD9.items():
     t, txt, note, ref = CLAIMED[k]
     CLAIMED[k] = (t + v, txt, note, ref)
 
+TECH_ADD10 = {
+ "C01": "; for every pool of generic containers (map[string]interface{}, []interface{}): if a value taken from it is boxed into interface{} and stored, passed or returned, nothing is ever Put into that pool (R01.12)",
+ "C02": "; taint from shared counters passes through local slots (results spilled by defer) (R02.4)",
+ "C03": "; the same pool rule: output does not depend on when a pool recycles a container a template still holds (R03.6)",
+ "C05": "; reflect.Value.Slice is legal on slices and strings only (values from ValueOf are never addressable arrays) (R05.2); a loop counter compared with a length is never advanced by len(y) without evidence that y is non-empty (R05.16); `switch { case cond: }` clauses refine token-index facts like if conditions (R05.1)",
+ "C06": "; every *Environment handed to a nested context in a function that has a render context is that context's env field (R06.12); all call sites of one SecurityPolicy method form their argument the same way (R06.13)",
+ "C07": "; the same sibling agreement of policy questions (R07.11)",
+ "C08": "; a quoted-literal shortcut (token value x[1:len(x)-1] beside TokenizeExpression(x)) needs evidence that the quote does not occur inside (R08.12); a parser function that builds FilterNodes around its Node parameter returns that parameter or a FilterNode it built (R08.16); operator tables whose values are records are read (R08.1)",
+ "C09": "; string(<[]byte data>) in the for renderer (R09.4)",
+ "C10": "; every string PrintNode.Render writes is a conversion result, never a slice, trim or replacement of it (R10.13)",
+ "C12": "; the code of ImportNode.Render contains SetVariable(alias, …) (R12.12)",
+ "C14": "; no element-wise copy of a []Token keeps or drops a token by a test over it, transitively within the iteration (R14.12); Size()/Len()/Cap() methods count as sizes",
+ "C15": "; no failing return of a file-reading Load is decided by a lookup in a map of the loader unless the file system is asked on every path (R15.11); Template.lastModified of a template taken from the cache is never written (R15.12); a non-nil Template.loader is stored only on the loading path, followed through unexported constructors (R15.13)",
+ "C16": "; in the codec no size-threshold branch selects a different set of wire-level functions (R16.13)",
+ "C19": "; string(<[]byte data>) in a sibling implementation changes the unit of the sequence for that sibling only (R19.1)",
+ "C20": "; the key of every reflect MapIndex does not derive from a conversion whose error/ok result is discarded (R20.9)",
+}
+for k, v in TECH_ADD10.items():
+    t, txt, note, ref = CLAIMED[k]
+    CLAIMED[k] = (t + v, txt, note, ref)
+
 NOT_YET = "static rule for this property not implemented yet at this commit (planned, see DESIGN.md §2)"
 NA = {}
 
